@@ -684,3 +684,120 @@ func init() {
 			return obs
 		}})
 }
+
+// typeConstsTested: the lisp.LType constants a function compares some X.Type
+// against (==, case), following same-package helpers one level.
+func (c *Ctx) typeConstsTested(u FuncUnit, depth int) map[string]bool {
+	out := map[string]bool{}
+	info := u.Pkg.TypesInfo
+	note := func(e ast.Expr) {
+		if o, ok := identObjOrSel(info, e).(*types.Const); ok && o.Pkg() != nil && strings.HasSuffix(o.Pkg().Path(), "/lisp") && strings.HasPrefix(o.Name(), "L") {
+			out[o.Name()] = true
+		}
+	}
+	ast.Inspect(u.Decl.Body, func(n ast.Node) bool {
+		switch x := n.(type) {
+		case *ast.BinaryExpr:
+			if x.Op == token.EQL {
+				note(x.X)
+				note(x.Y)
+			}
+		case *ast.CaseClause:
+			for _, e := range x.List {
+				note(e)
+			}
+		case *ast.CallExpr:
+			if depth > 0 {
+				if fn := originOf(Callee(info, x)); fn != nil && fn.Pkg() == u.Obj.Pkg() && fn != u.Obj {
+					if fd := c.declOf[fn]; fd != nil && fd.Body != nil {
+						for k := range c.typeConstsTested(FuncUnit{fn, fd, c.pkgOf[fd]}, depth-1) {
+							out[k] = true
+						}
+					}
+				}
+			}
+		}
+		return true
+	})
+	return out
+}
+
+func identObjOrSel(info *types.Info, e ast.Expr) types.Object {
+	e = ast.Unparen(e)
+	switch x := e.(type) {
+	case *ast.Ident:
+		return info.Uses[x]
+	case *ast.SelectorExpr:
+		return info.Uses[x.Sel]
+	}
+	return nil
+}
+
+func init() {
+	register(&Rule{ID: "EXPORT.shapes-agree", Floor: 3,
+		Doc: "every static recogniser of the names an (export ...) form exports — minifier.exportNames, minifier.rewriteExports, analysis.prescanExport, analysis.scanExportNames — tests for every argument type the export builtin accepts (today: symbol, string, list): a name exported in a spelling the tools do not recognise is treated as private and renamed",
+		Run: func(c *Ctx) []Obligation {
+			bfn, bfd, bpkg := c.LookupFunc("lisp.builtinExport")
+			if bfn == nil {
+				return []Obligation{anchorMissing("EXPORT.shapes-agree", "lisp.builtinExport")}
+			}
+			accepted := map[string]bool{}
+			binfo := bpkg.TypesInfo
+			ast.Inspect(bfd.Body, func(n ast.Node) bool {
+				cc, ok := n.(*ast.CaseClause)
+				if !ok || cc.List == nil {
+					return true
+				}
+				// a clause that returns an error rejects
+				rejects := false
+				for _, st := range cc.Body {
+					if rs, ok := st.(*ast.ReturnStmt); ok && len(rs.Results) == 1 {
+						if ce, ok := ast.Unparen(rs.Results[0]).(*ast.CallExpr); ok {
+							if se, ok := ast.Unparen(ce.Fun).(*ast.SelectorExpr); ok && strings.HasPrefix(se.Sel.Name, "Error") {
+								rejects = true
+							}
+						}
+					}
+				}
+				if rejects {
+					return true
+				}
+				for _, e := range cc.List {
+					if o, ok := identObjOrSel(binfo, e).(*types.Const); ok {
+						accepted[o.Name()] = true
+					}
+				}
+				return true
+			})
+			var obs []Obligation
+			if len(accepted) < 2 {
+				obs = append(obs, mkOb(c, "EXPORT.shapes-agree", FuncUnit{bfn, bfd, bpkg}, "accepted argument types", bfd, Undecided, fmt.Sprintf("could not read the accepted argument types of builtinExport (found %d)", len(accepted)), false))
+				return obs
+			}
+			var acc []string
+			for k := range accepted {
+				acc = append(acc, k)
+			}
+			sort.Strings(acc)
+			for _, name := range []string{"minifier.exportNames", "minifier.rewriteExports", "analysis.(*analyzer).prescanExport", "analysis.scanExportNames"} {
+				fn, fd, pkg := c.LookupFunc(name)
+				if fn == nil {
+					continue // a recogniser may be merged into another; the floor keeps at least three
+				}
+				u := FuncUnit{fn, fd, pkg}
+				tested := c.typeConstsTested(u, 2)
+				var missing []string
+				for _, k := range acc {
+					if !tested[k] {
+						missing = append(missing, k)
+					}
+				}
+				if len(missing) == 0 {
+					obs = append(obs, mkOb(c, "EXPORT.shapes-agree", u, "recognised argument types", fd, Proved, "tests for "+strings.Join(acc, ", ")+" (directly or in a helper)", true))
+				} else {
+					obs = append(obs, mkOb(c, "EXPORT.shapes-agree", u, "recognised argument types", fd, Violated, "the export builtin accepts "+strings.Join(acc, ", ")+" but this recogniser never tests for "+strings.Join(missing, ", ")+": e.g. (export \"pub\") exports pub at run time, the tool treats pub as private and renames its definition", true))
+				}
+			}
+			return obs
+		}})
+}
